@@ -1,6 +1,7 @@
 /-
 Secondary tie for C18: the crop indices of `fourier.convolve(mode='same')`, as GENERATED from the current text of
-src/ibldsp/fourier.py, equal the model's `sameFirst` / `sameLast`.
+src/ibldsp/fourier.py, equal the model's `sameFirst` / `sameLast`; the bin counts of `freduce` / `fexpand` equal `freduceSize` / `fexpandLast`
+(which `SpecIdx.freduce` / `fexpand` are, definitionally: `freduce_eq_named`, `fexpand_eq_named`).
 -/
 import IblVerif.Generated.SrcC18
 import IblVerif.Model.SpecIdx
@@ -17,6 +18,20 @@ theorem same_last_eq (nsw : Nat) : Src.C18.convolve_last nsw = SpecIdx.sameLast 
   unfold Src.C18.convolve_last SpecIdx.sameLast pyCeilDiv
   simp only [Int.fdiv_eq_ediv_of_nonneg _ (by omega : (0 : Int) ≤ 2), Int.fmod_eq_emod_of_nonneg _ (by omega : (0 : Int) ≤ 2)]
   simp only [Int.ofNat_eq_natCast]
+  omega
+
+/-- `freduce`: the number of bins kept, as the source computes it (`int(np.floor(n / 2 + 1))`), is the model's `n / 2 + 1`. -/
+theorem freduce_size_eq (n : Nat) : Src.C18.freduce_size n = (SpecIdx.freduceSize n : Int) := by
+  unfold Src.C18.freduce_size SpecIdx.freduceSize
+  try simp only [Int.fdiv_eq_ediv_of_nonneg _ (by omega : (0 : Int) ≤ 2), Int.fmod_eq_emod_of_nonneg _ (by omega : (0 : Int) ≤ 2)]
+  try rw [Int.tdiv_eq_ediv_of_nonneg (by omega)]
+  omega
+
+/-- `fexpand`: the index one past the last mirrored bin (`int((ns + ns % 2) / 2)`) is the model's `(ns + ns % 2) / 2`. -/
+theorem fexpand_ilast_eq (ns : Nat) : Src.C18.fexpand_ilast ns = (SpecIdx.fexpandLast ns : Int) := by
+  unfold Src.C18.fexpand_ilast SpecIdx.fexpandLast
+  try simp only [Int.fdiv_eq_ediv_of_nonneg _ (by omega : (0 : Int) ≤ 2), Int.fmod_eq_emod_of_nonneg _ (by omega : (0 : Int) ≤ 2)]
+  try rw [Int.tdiv_eq_ediv_of_nonneg (by omega)]
   omega
 
 end IblVerif.Tie.C18
